@@ -2,6 +2,8 @@
 import itertools, random, re
 from nodegen import *
 import netfam
+from common import build_binary
+import realcli
 
 ID = "C20"
 DRIVER = "node"
@@ -14,7 +16,9 @@ RULE = ("HTTP bodies of 1-6 commands drawn from {auth ok/bad, use-db ok/bad, get
         "entries come from sending the same commands one at a time over an ordinary session on a twin database; exhaustive for "
         "bodies of 1-2 commands (3 in the thorough tier), seeded random up to 6; distinct = distinct canonical trace; non-trivial = "
         "a refused command is followed by a served one; transport family t*: bodies of 1-6 commands through the real HTTP listener and "
-        "as one WebSocket frame, compared entry by entry with the commands sent one frame at a time")
+        "as one WebSocket frame, compared entry by entry with the commands sent one frame at a time; command-line family e*: "
+        "`nun-db -u -p --host exec \"<1-6 commands>\"` (the real client of command_line/commands.rs) against the HTTP listener of a real "
+        "nun-db process, the printed reply compared with the model's reply to the body the client builds")
 ASSUMPTIONS = ["node-driver families drive the HTTP worker's body handling through process_commands (hook verif_process_commands) with "
                "body.split(';') as in start_http_client; the transport family t* posts the body to the real HTTP listener and sends the "
                "same commands as one frame to the real WebSocket listener"]
@@ -56,7 +60,36 @@ def mk(cmds, rng, extra=None, decorate=True):
 
 
 def driver_of(case):
-    return "net" if case[0].startswith("t") else "node"
+    return "net" if case[0].startswith("t") else ("realcli" if case[0].startswith("e") else "node")
+
+
+def impl_runner_for(drv):
+    if drv != "realcli":
+        return None
+
+    def run(cases, ctx, rundir):
+        rc, out, binary = build_binary()
+        if rc != 0:
+            return {}, ["the nun-db binary does not build: %s" % out[-600:]]
+        return realcli.run_cases(cases, binary, rundir)
+    return run
+
+
+def model_driver_of(drv):
+    return "node" if drv == "realcli" else drv
+
+
+def reduce_model(case, drv, obs):
+    return realcli.reduce_model(case, obs) if drv == "realcli" else obs
+
+
+def cli_mk(cmds, rng):
+    """the command-line client (`nun-db exec`) against the real server's HTTP listener: its body is 'auth <user> <pwd>; <commands>'"""
+    ops = setup_ops()
+    sub = lambda c: c.replace("@DB", "dH").replace("@NEW", "newH")
+    body = realcli.PREFIX + body_of([sub(c) for c in cmds], rng, True)
+    ops.append(["http", hexs(body)])
+    return ops
 
 
 def net_setup():
@@ -145,12 +178,28 @@ def gen_cases(tier, seed):
             seq.insert(rng.randint(0, len(seq)), "watch a")
         cases.append(("t%d" % i, ["P"], net_mk(seq, rng)))
     dist["transport"] = nt
+    ne = {"quick": 24, "thorough": 300, "search": 12}[tier]
+    for i in range(ne):
+        seq = [rng.choice([c for c in CMDS if not c.startswith("auth")]) for _ in range(rng.randint(1, 6))]
+        cases.append(("e%d" % i, ["P"], cli_mk(seq, rng)))
+    dist["command_line_client"] = ne
     return cases, dist
 
 
 def oracle(case, io, mo):
     if case[0].startswith("t"):
         return net_oracle(case, io, mo)
+    if case[0].startswith("e"):
+        # one entry per command of the body the client built ("auth ...; <commands>"), compared with the model's reply
+        fails = [("cli-run-failed", l[:200]) for l in io["obs"] if not l.startswith("Http ")]
+        for l in io["obs"]:
+            if l.startswith("Http "):
+                body = bytes.fromhex(case[2][-1][1][1:]).decode()
+                n_cmds = len([c for c in body.split(";") if c.strip() != ""])
+                n_ent = len(unesc(l[5:]).split(";")) if l != "Http {}" else 0
+                if n_ent != n_cmds:
+                    fails.append(("http-misaligned", "the client sent %d commands and printed %d entries: %s" % (n_cmds, n_ent, l[:200])))
+        return fails
     fails = []
     obs = split_obs(io)
     ns = len(setup_ops())
@@ -201,6 +250,8 @@ def oracle(case, io, mo):
 
 
 def nontrivial(case, io):
+    if case[0].startswith("e"):
+        return any(l.startswith("Http ") for l in io["obs"])
     obs = split_obs(io)
     ns = len(net_setup()) + 2 if case[0].startswith("t") else len(setup_ops())
     rs = [o[0] for o in obs[ns + 1:]]
